@@ -197,6 +197,7 @@ func RunCheck(o CheckOpts) int {
 		replayDir = filepath.Join(tmp, "replay")
 	}
 	os.RemoveAll(outDir)
+	NoRetry = func(name string) bool { return known.match(o.Prop, oblClass(name)) != nil }
 	srs := SolveAll(g, header, results, outDir, o.Par, timeout, o.Tier == "thorough")
 	for _, r := range results {
 		// assumptions registered while the per-function headers were assembled (instance axioms about literals)
